@@ -26,6 +26,8 @@ analysis procedures.
 
 .. moduleauthor:: Tom Dimiduk <tdimiduk@physics.harvard.edu>
 """
+import inspect
+
 import numpy as np
 import yaml
 
@@ -71,9 +73,17 @@ class HoloPyObject(Serializable):
         return dict(self._iteritems())
 
     def _iteritems(self):
+        # None is left out unless the constructor would turn it into something
+        # else: an argument whose default is not None (parallel='auto') keeps
+        # an explicit None, otherwise save -> load would change it.
+        defaults = {name: par.default for name, par in
+                    inspect.signature(self.__init__).parameters.items()}
         for var in self.__init__.__code__.co_varnames[1:]:
-            if getattr(self, var, None) is not None:
-                item = getattr(self, var)
+            item = getattr(self, var, None)
+            default = defaults.get(var, None)
+            keep_none = (hasattr(self, var) and default is not None
+                         and default is not inspect.Parameter.empty)
+            if item is not None or keep_none:
                 if isinstance(item, np.ndarray) and item.ndim == 1:
                     item = list(item)
                 yield var, item
